@@ -14,6 +14,7 @@ import (
 	"encoding/pem"
 	"errors"
 	"fmt"
+	kitpem "github.com/dapr/kit/crypto/pem"
 	"math/big"
 	"net/url"
 	"os"
@@ -151,6 +152,9 @@ type issuer struct {
 	withDir bool
 	// anchorsFail: the next CurrentTrustAnchors call fails (scripted "anchors-err" outcome)
 	anchorsFail atomic.Bool
+	// anchorsUseKit: the trust-anchor source is itself built on the library - it PEM-encodes its CA with
+	// kit's crypto/pem on every call (and so touches whatever package-level state that encoder has)
+	anchorsUseKit bool
 }
 
 func (is *issuer) poke() {
@@ -286,6 +290,15 @@ func (a anchors) CurrentTrustAnchors(context.Context) ([]byte, error) {
 	if a.is.anchorsFail.Swap(false) {
 		return nil, errors.New("trust anchors: scripted failure")
 	}
+	if a.is.anchorsUseKit {
+		if _, err := kitpem.EncodeX509Chain([]*x509.Certificate{caCert, intCert}); err != nil {
+			return nil, err
+		}
+		if _, err := kitpem.EncodeX509(caCert); err != nil {
+			return nil, err
+		}
+		rec.Count("anchors.source_uses_kit_pem_encoder", 1)
+	}
 	return []byte(fmt.Sprintf("anchors-v%d", a.is.anchorsV.Load())), nil
 }
 func (a anchors) Watch(ctx context.Context, _ chan<- []byte) { <-ctx.Done() }
@@ -353,7 +366,7 @@ func TestCheck(t *testing.T) {
 	defer rec.Close()
 	initCA()
 	rec.Note("rule", "a case is one scenario against the real SPIFFE object in a synctest bubble with a scripted issuer signing real SVIDs: (order) each of the six first-call orders of Run / Ready / GetX509SVID from separate goroutines x initial fetch succeeding or failing x consumer additionally parked inside GetX509SVID while it holds the read lock; (renewal) a seeded script of 3-8 issuer outcomes (validity windows from 2 s to 30 days, already past half-life, expired, not yet valid; failures: an issuer error, an empty answer, or a signed chain without a usable SPIFFE ID) with the virtual clock advanced in seeded steps of seconds to hours, optionally writing the identity to a directory and rotating the trust anchors. Non-trivial = the issuer received at least one request; distinct = distinct scenario description.")
-	rec.Note("require", []string{"order.get_first", "order.ready_first", "order.run_first", "order.initial_fetch_failed", "order.second_run_refused", "order.run_context_ended_during_initial_fetch", "order.consumer_parked_with_rlock", "renewal.requests", "renewal.on_time", "renewal.retry_after_failure", "renewal.served_latest_checked", "renewal.fresh_keys_checked", "renewal.unusable_answer_scripted", "renewal.get_during_inflight_renewal", "renewal.consumer_get_at_publication", "files.sets_checked", "files.undisturbed_after_failed_fetch"})
+	rec.Note("require", []string{"order.get_first", "order.ready_first", "order.run_first", "order.initial_fetch_failed", "order.second_run_refused", "order.run_context_ended_during_initial_fetch", "order.consumer_parked_with_rlock", "renewal.requests", "renewal.on_time", "renewal.retry_after_failure", "renewal.served_latest_checked", "renewal.fresh_keys_checked", "renewal.unusable_answer_scripted", "renewal.get_during_inflight_renewal", "renewal.consumer_get_at_publication", "files.sets_checked", "anchors.source_uses_kit_pem_encoder", "files.undisturbed_after_failed_fetch"})
 	ps := plans()
 	rec.Planned(len(ps))
 	for idx, pl := range ps {
@@ -623,7 +636,7 @@ func runRenewal(t *testing.T, idx int, rng *mon.RNG) {
 		defer os.RemoveAll(filepath.Dir(target))
 	}
 	res := mon.Bubble(t, func() {
-		is := &issuer{script: script, withDir: withDir}
+		is := &issuer{script: script, withDir: withDir, anchorsUseKit: idx%2 == 0}
 		w.is = is
 		var dp *string
 		if withDir {
